@@ -25,9 +25,10 @@ def all_sync(gspec: dict) -> dict:
 
 def build(gspec: dict, rt: Runtime, mode: str, bind: dict | None = None) -> tuple[Any, Any]:
     try:
-        graph, comp = compile_with(gspec, rt, mode)
         if bind:
-            graph = graph.bind(**bind)
+            # bind before select/entrypoints are applied (a selection narrows which names may be bound)
+            gspec = dict(gspec, bind={**(gspec.get("bind") or {}), **bind})
+        graph, comp = compile_with(gspec, rt, mode)
     except Exception as e:  # noqa: BLE001 - constructor verdicts are not judged by run-time checks
         raise BuildError(f"{type(e).__name__}: {str(e)[:200]}") from e
     return graph, comp
